@@ -300,13 +300,14 @@ func (r *Request) SetFile(paramName, filePath string) *Request {
 		ParamName: paramName,
 		FileName:  filepath.Base(filePath),
 		GetFileContent: func() (io.ReadCloser, error) {
-			if r.RetryAttempt > 0 {
-				file, err = os.Open(filePath)
-				if err != nil {
-					return nil, err
-				}
+			// The handle opened above serves the first call. Whoever reads the
+			// content closes it, so every further call (a retry, the re-send of
+			// a streamed upload after a digest challenge) opens the file again.
+			if f := file; f != nil {
+				file = nil
+				return f, nil
 			}
-			return file, nil
+			return os.Open(filePath)
 		},
 		FileSize: fileInfo.Size(),
 	})
